@@ -405,7 +405,7 @@ func throughPipe(dir string, lines []string) (o obs) {
 		panic(err)
 	}
 	defer os.Remove(path)
-	r := newRig(len(lines) + 8)
+	r := newRig(4*len(lines) + 64) // (room for a change that hands over several logins per line: it is reported, not waited for)
 	ing := syslog.NewSyslogIngester(path, r.proc, namedpipe.NewNamedPipeIngester(mc.DebugLogger(), health.NewHealth()))
 	ctx, cancel := context.WithCancel(context.Background())
 	defer cancel()
@@ -455,7 +455,7 @@ func throughPipeSplit(dir string, lines []string, pause time.Duration) (o obs) {
 		panic(err)
 	}
 	defer os.Remove(path)
-	r := newRig(len(lines) + 8)
+	r := newRig(4*len(lines) + 64) // (room for a change that hands over several logins per line: it is reported, not waited for)
 	ing := syslog.NewSyslogIngester(path, r.proc, namedpipe.NewNamedPipeIngester(mc.DebugLogger(), health.NewHealth()))
 	ctx, cancel := context.WithCancel(context.Background())
 	defer cancel()
